@@ -99,6 +99,9 @@ class Controller:
 
     def gate(self, sid, kind, dur=0.0):
         fut = asyncio.get_running_loop().create_future()
+        if self.specs.get(sid, {}).get("transport") == "sync":
+            fut.set_result(None)          # ungated simulator: the reply is immediate
+            return fut
         if self.timed:
             dur = max(dur, 2.0 ** -30)     # on a real clock even an instant answer takes time
         g = Gate(self.seq, sid, kind, fut, self.clock + dur, self.early.get(self.seq))
@@ -551,6 +554,46 @@ class ScriptedSim(mosaik_api_v3.Simulator):
             self.ctl.trace.append(("finalize", self.sid))
 
 
+class ScriptedSimSync(ScriptedSim):
+    """The same scripted behaviours with plain (non-generator) methods: replies are immediate, exactly like
+    the in-process simulators of the repository's own tests (no gating, no asynchronous requests)."""
+
+    def setup_done(self):
+        self.ctl.ev("setup_done", self.sid)
+        fk = self._fault("setup_done")
+        if fk:
+            self._do_fault(fk)
+        return None
+
+    def step(self, time, inputs, max_advance=None):
+        k = self.k
+        self.k += 1
+        if time == self.time:
+            self.sub += 1
+        else:
+            self.sub = 0
+        self.time = time
+        snap = snapshot(inputs)
+        if self.beh.get("sensitive"):
+            self.in_hash = stable_hash([self.in_hash, time, snap])
+        self.ctl.ev("step_begin", self.sid, time, snap, max_advance)
+        fk = self._fault("step")
+        if fk:
+            self._do_fault(fk)
+        nxt = self._next(time, k)
+        self.ctl.ev("step_end", self.sid, nxt)
+        return nxt
+
+    def get_data(self, outputs):
+        gen = ScriptedSim.get_data(self, outputs)
+        try:
+            next(gen)                 # runs up to the gate; the gate's future is simply dropped
+            gen.send(None)
+        except StopIteration as stop:
+            return stop.value
+        raise RuntimeError("unreachable")
+
+
 def eval_bad(bad, time):
     """malformed reply values for C13: ['rel', d] -> time+d ; ['abs', v] -> v ; ['float', d] ; ['str', d] ;
     ['list', d] ; ['none'] ; ['bool', b]"""
@@ -652,13 +695,19 @@ def run_case(case, keep_world=False):
     ropt = scn.get("run", {})
     sim_config = {
         "Local": {"python": "mvf.harness:ScriptedSim"},
+        "Sync": {"python": "mvf.harness:ScriptedSimSync"},
         "Mem": {"mvfmem": "scripted"},
     }
     orig_pc = msched.perf_counter
     world = None
     t_start = ctl.clock
     try:
-        msched.perf_counter = lambda: ctl.clock
+        def virtual_perf_counter():
+            # a real clock never stands still: every reading in a real-time case is a little later
+            if ctl.timed:
+                ctl.clock += 2.0 ** -30
+            return ctl.clock
+        msched.perf_counter = virtual_perf_counter
         world = mosaik.World(sim_config, skip_greetings=True, asyncio_loop=loop,
                              debug=bool(wopt.get("debug", False)), cache=bool(wopt.get("cache", True)),
                              max_loop_iterations=wopt.get("max_loop_iterations", 100),
@@ -670,7 +719,7 @@ def run_case(case, keep_world=False):
             for child in tree:
                 if isinstance(child, str):
                     sp = specs[child]
-                    name = "Mem" if sp.get("transport") == "mem" else "Local"
+                    name = {"mem": "Mem", "sync": "Sync"}.get(sp.get("transport"), "Local")
                     pspec = {k: v for k, v in sp.items() if k not in ("transport",)}
                     fac = world.start(name, sim_id=child, spec=pspec)
                     ents[child] = fac.M.create(sp.get("n_ent", 1))
